@@ -1,6 +1,7 @@
 package main
 
 import (
+	"go/token"
 	"go/types"
 
 	"golang.org/x/tools/go/ssa"
@@ -172,16 +173,45 @@ func ruleFileLeak(r *Report) {
 				continue
 			}
 			n++
-			isF := func(v ssa.Value) bool {
-				return derives(v, flowOpts{}, func(x ssa.Value) bool {
-					for _, f := range files {
-						if x == f {
+			// value-level flow only (phis, conversions, local variable cells): what is read back out
+			// of a map, list or struct is another holder's handle, not this one
+			var isFv func(v ssa.Value, seen map[ssa.Value]bool) bool
+			isFv = func(v ssa.Value, seen map[ssa.Value]bool) bool {
+				if seen[v] {
+					return false
+				}
+				seen[v] = true
+				for _, f := range files {
+					if v == f {
+						return true
+					}
+				}
+				switch x := v.(type) {
+				case *ssa.Phi:
+					for _, ed := range x.Edges {
+						if isFv(ed, seen) {
 							return true
 						}
 					}
-					return false
-				})
+				case *ssa.ChangeType:
+					return isFv(x.X, seen)
+				case *ssa.MakeInterface:
+					return isFv(x.X, seen)
+				case *ssa.UnOp:
+					if al, ok := x.X.(*ssa.Alloc); ok && x.Op == token.MUL && al.Referrers() != nil {
+						for _, ref := range *al.Referrers() {
+							if st, ok := ref.(*ssa.Store); ok && st.Addr == ssa.Value(al) && isFv(st.Val, seen) {
+								return true
+							}
+						}
+					}
+					if fv, ok := x.X.(*ssa.FreeVar); ok && x.Op == token.MUL {
+						_ = fv
+					}
+				}
+				return false
 			}
+			isF := func(v ssa.Value) bool { return isFv(v, map[ssa.Value]bool{}) }
 			// the function hands the file to its caller
 			if fresh {
 				r.Ok(rule, shortFunc(fn)+"/"+cname(ci), ci.Pos(), "the opened file is this function's result: the caller owns it")
@@ -220,7 +250,8 @@ func ruleFileLeak(r *Report) {
 						return true
 					}
 				case *ssa.Return:
-					for _, rv := range x.Results {
+					for i := range x.Results {
+						rv := retVal(x, i) // the value this return statement yields (results may be spilled by defer)
 						if isOSFilePtr(rv.Type()) && isF(rv) {
 							return true
 						}
